@@ -428,6 +428,43 @@ fn main_check(ctx: &Ctx) -> Outcome {
         out.push_part(json!({"part":"non-ASCII characters in 6 texts (with CRLF line ends) x 4 styles","characters":wide.len()}));
     }
 
+    // (L) long segments (around 1 / 4 / 8 / 64 KiB) without a line break, made of ASCII, of 2-, 3- and 4-byte characters,
+    //     and of ASCII with one multi-byte character at every offset near the 4 KiB mark; and very many short segments
+    {
+        let styles4 = [reps[0], reps[1], reps[4], reps[10]];
+        let mut texts: Vec<String> = vec![];
+        for n in [1000usize, 4095, 4096, 4097, 8193, 70000] {
+            texts.push("x".repeat(n));
+            for c in ['\u{e9}', '\u{4e16}', '\u{1f600}'] {
+                texts.push(format!("x{}", c.to_string().repeat(n / c.len_utf8())));
+                texts.push(format!("{}\ny", c.to_string().repeat(n / c.len_utf8())));
+            }
+        }
+        for off in 4090..=4100usize {
+            texts.push(format!("{}\u{e9}{}", "a".repeat(off), "b".repeat(50)));
+        }
+        texts.par_iter().for_each(|t| {
+            let mut local = vec![];
+            for st in &styles4 {
+                let input = format!("{}{t}", st.sequence(false));
+                acc.case("long segments", input.as_bytes(), || vec![format!("{} bytes starting {:?}", input.len(), input.chars().take(24).collect::<String>())], &mut local);
+            }
+            acc.flush(local);
+        });
+        // many short segments
+        for n in [100usize, 1000, 5000] {
+            let mut input = String::new();
+            for i in 0..n {
+                input.push_str(&styles4[i % 4].sequence(false));
+                input.push_str(["a", "bc", ".d", "e\nf"][i % 4]);
+            }
+            let mut local = vec![];
+            acc.case("long segments", input.as_bytes(), || vec![format!("{n} short segments")], &mut local);
+            acc.flush(local);
+        }
+        out.push_part(json!({"part":"long segments and many short segments","texts":texts.len(),"styles":4}));
+    }
+
     // (D) documents of <= k segments
     let (k, d_styles, d_len) = if quick { (2usize, 8usize, 2usize) } else { (3, 6, 2) };
     let d_texts = texts_upto(d_len);
